@@ -29,6 +29,9 @@ type tcase struct {
 	Mode     string `json:"mode"`
 	// PreHas: R was legitimately present (holding the bytes that match it) when the case ran.
 	PreHas bool `json:"pre_has"`
+	Chunk  int  `json:"chunk"`
+	Index  int  `json:"index"` // position in the deterministic case list of its group
+	Audit  bool `json:"audit,omitempty"`
 
 	T, O []byte   `json:"-"`
 	R    blob.Ref `json:"-"`
